@@ -35,6 +35,12 @@ CHECKS = {
  "C15": dict(cat="model_checking", tech="TLA+ FreeSegments (endpoint-based, checked equal to column-based by TLC) enumerated exhaustively and replayed into Row::freespace / Circuit::computeRows; random traces validated",
              text="Exhaustive on a grid of before/at/inside/at/after coordinates around a row with every flag combination; random large-coordinate cases validated endpoint-wise.",
              ref="5/C15", engine="tlc-edges + replay; record + tlc-trace"),
+ "C10": dict(cat="fault_enumeration", tech="TLA+ protocol model (PlaceProtocol.tla: invariants + liveness, all interleavings) + exhaustive per-instance fault enumeration (throw at every callback index) validated by TLC against the shared setter contract",
+             text="Design level: TLC explores every interleaving of calls, callbacks, exceptions and setters of the protocol model (the unrepaired variant Guard=FALSE is kept and violates IdleMeansUnlocked). Code level: for every instance every callback index is used once as the fault point; setters inside callbacks and after each kind of end are validated event by event.",
+             ref="5/C10", engine="tlc-design; record + tlc-trace"),
+ "C19": dict(cat="model_checking", tech="finite table of invalid-input attempts executed under ASan+UBSan, outcomes validated by TLC against PlaceAPI.tla (CtorFails, ParamCheckFails, SetterFails)",
+             text="The attempt space (efforts, every field at/around each bound, every setter with wrong lengths, bad nets) is finite and enumerated completely; expected outcomes come from the contract operators evaluated by TLC; sanitizer reports and aborts are events outside the alphabet.",
+             ref="5/C19", engine="record + tlc-trace"),
  "C11": dict(cat="model_checking", tech="TLA+ contract (legal single-row input => stutter) + TLC trace validation of legalize;legalize",
              text="For every recorded pair of successive legalize calls TLC checks the antecedent (input Legal, all movable cells row-high) and that positions are unchanged.", ref="5/C11"),
 }
